@@ -528,10 +528,19 @@ fn geo_session(sc: &Value, tr: &mut Tracer) {
 	let input = if s1000 == 0 { Frame::new(0.5, 0.25) } else { Frame::from_mono(0.5) };
 	let mut sim = Sim::basic();
 	let mut listener = sim.manager.add_listener(Vec3::ZERO, Quat::IDENTITY).unwrap();
+	// where the strength comes from: a fixed number, or a mapping (from a modulator / from the listener distance) whose whole
+	// output range is the value `sraw` - possibly outside 0..1
+	let sraw = sc["sraw"].as_i64().unwrap_or(s1000) as f32 / 1000.0;
+	let tweener = sim.manager.add_modulator(kira::modulator::tweener::TweenerBuilder { initial_value: 0.5 }).unwrap();
+	let strength: KValue<f32> = match sc["smode"].as_str().unwrap_or("fixed") {
+		"mod" => KValue::FromModulator { id: tweener.id(), mapping: Mapping { input_range: (0.0, 1.0), output_range: (sraw, sraw), easing: Easing::Linear } },
+		"dist" => KValue::FromListenerDistance(Mapping { input_range: (0.0, 100.0), output_range: (sraw, sraw), easing: Easing::Linear }),
+		_ => KValue::Fixed(sraw),
+	};
 	let builder = SpatialTrackBuilder::new()
 		.distances((min, max))
 		.attenuation_function(if att { Some(ease) } else { None })
-		.spatialization_strength(s1000 as f32 / 1000.0);
+		.spatialization_strength(strength);
 	let mut track = sim.manager.add_spatial_sub_track(listener.id(), Vec3::new(1.0, 0.0, 0.0), builder).unwrap();
 	let stats: Arc<ProbeStats> = Default::default();
 	track.play(ProbeData { frame: input, stats }).unwrap();
